@@ -278,6 +278,24 @@ theorem C10_wait_needs_calls {start : Int} {es : List (Tid × Ev)} {s s' : St} {
   have h2 := C10_arrived_le_calls h
   omega
 
+/-- Conversely ("once that many have taken place ..."): when at least `start` calls of `arrive` /
+`arrive_and_wait` have been made and none of them is still in front of its decrement, the latch is
+open (`counter ≤ 0`), which is the hypothesis of `C10_no_lost_wakeup`, `C10_open_progress`,
+`C10_open_terminates` and `C10_stuck_all_returned`: every current and future waiter returns. -/
+theorem C10_calls_open {start : Int} {es : List (Tid × Ev)} {s : St} (h : run start es = some s)
+    (hc : start ≤ (arriveCalls es : Int)) (hp : ∀ t, (s.pc t).pending = false) : s.counter ≤ 0 := by
+  obtain ⟨P, hj⟩ := J_run es (J_init start) h
+  have hP : P = [] := by
+    cases P with
+    | nil => rfl
+    | cons u P => have := hj.only u (List.mem_cons_self ..); rw [hp u] at this; cases this
+  have hsum := hj.sum
+  rw [hP] at hsum
+  have hcnt := (inv_reachable ⟨es, h⟩).cnt
+  have hst := run_start h
+  simp at hsum
+  omega
+
 /-- non-vacuity: a trace with one arrive call, one decrement, and a waiter that returns -/
 example : ∃ s, run 1 witnessTrace = some s ∧ arriveCalls witnessTrace = 1 ∧ s.arrived = 1 :=
   ⟨_, rfl, by decide, by decide⟩
